@@ -20,6 +20,15 @@ def arg_src(a):
             "bool": lambda: "true"}[k]()
 
 
+def bound_src(n):
+    """slice bounds: +-1000000 in the specification stand for the saturated ends of the integer domain"""
+    if n >= 1000000:
+        return "9223372036854775808"
+    if n <= -1000000:
+        return "-9223372036854775808"
+    return str(n)
+
+
 def seq_src(kind, xs):
     if kind == "v":
         return "[%s]" % ", ".join(map(str, xs))
@@ -33,11 +42,11 @@ def case_src(c):
     if op == "index":
         e = "%s[%s]" % (s_lit(c["s"]), arg_src(c["a"]))
     elif op == "slice":
-        e = "%s[%d..%d]" % (s_lit(c["s"]), c["b"], c["e"])
+        e = "%s[%s..%s]" % (s_lit(c["s"]), bound_src(c["b"]), bound_src(c["e"]))
     elif op in ("vindex", "tindex"):
         e = "%s[%s]" % (seq_src(op[0], c["s"]), arg_src(c["a"]))
     elif op in ("vslice", "tslice"):
-        e = "%s[%d..%d]" % (seq_src(op[0], c["s"]), c["b"], c["e"])
+        e = "%s[%s..%s]" % (seq_src(op[0], c["s"]), bound_src(c["b"]), bound_src(c["e"]))
     elif op in ("len", "count_chars", "is_alpha", "is_digit", "is_hexdigit", "to_bytes", "to_code_points"):
         e = "%s.%s()" % (s_lit(c["s"]), op)
     elif op == "iterate":
